@@ -162,4 +162,21 @@ def enrich(rng, m):
                 mt.code.debug = {"line_start": rng.randrange(1, 500), "param_names": [rng.choice([None, "p" + ident(rng)]) for _ in mt.params], "ops": [0x01, 0x02, 0x0A] if rng.random() < 0.5 else []}
             if rng.random() < 0.2:
                 mt.annotations.append(W.Annotation("Lann/M;", [("who", W.EV(W.V_METHOD, mt.ref))]))
+    if m.classes and rng.random() < 0.3:
+        # DEX 038+: method handles and call sites (what d8 writes for lambdas / string concatenation): two more id sections in the map, call_site_items
+        # among the encoded arrays, method-handle and method-type constants in them
+        m.version = rng.choice([b"038", b"039"])
+        meths = [mt for c in m.classes for mt in c.direct_methods + c.virtual_methods]
+        flds = [f for c in m.classes for f in c.static_fields]
+        for _ in range(rng.randrange(1, 4)):
+            if meths and (not flds or rng.random() < 0.7):
+                m.method_handles.append((rng.choice([4, 5, 6, 8]), rng.choice(meths).ref))     # invoke-static/instance/constructor/interface
+            elif flds:
+                m.method_handles.append((rng.choice([0, 1]), rng.choice(flds).ref))             # static-put / static-get
+            else:
+                m.method_handles.append((4, W.Mth("Ljava/lang/invoke/LambdaMetafactory;", "metafactory", "Ljava/lang/invoke/CallSite;", ())))
+        for _ in range(rng.randrange(0, 3)):
+            m.call_sites.append([W.EV(W.V_METHOD_HANDLE, rng.randrange(len(m.method_handles))), W.EV(W.V_STRING, "site" + ident(rng)),
+                                 W.EV(W.V_METHOD_TYPE, W.Pro(rng.choice(["V", "I"]), rng.choice([(), ("I",)])))]
+                                + [W.EV(W.V_INT, rng.randrange(-3, 3)) for _ in range(rng.randrange(0, 2))])
     return m
